@@ -602,6 +602,30 @@ func init() {
 			ts = append(ts, Task{Pkg: "40", Func: "(CVSS40).Nomenclature", Opts: RunOpts{TrackAllocs: true}, Match: `/post/no_allocation`})
 			return ts
 		},
+		Custom: func(cc *CheckCtx) {
+			// v4.0 Score: no allocation site on any path, for each of the 270 MacroVector cases
+			filter := cc.W.allocFilterFor("40", nil)
+			for _, e := range cc.W.validMacroVectors() {
+				var rv []Value
+				for _, x := range e {
+					rv = append(rv, IntLit(int64(x)))
+				}
+				fr := cc.W.RunFunc("40", "(*CVSS40).Score", RunOpts{TrackAllocs: true, AllocFilter: filter, NoSafety: true, ConcreteRet: map[string][]Value{"(CVSS40).macroVector": rv}})
+				cc.Funcs["40.(*CVSS40).Score"] = true
+				if fr.Err != "" {
+					cc.ToolErr = append(cc.ToolErr, fr.Err)
+					return
+				}
+				for _, o := range fr.VC.Obligs {
+					if strings.HasSuffix(o.Name, "/post/no_allocation") {
+						oo := *o
+						oo.Name = o.Name + "[mv=" + mvLabel(e) + "]"
+						cc.Results = append(cc.Results, dischargeOne(fr, &oo, 30))
+					}
+				}
+			}
+			cc.runTask(Task{Pkg: "40", Func: "(CVSS40).macroVector", Opts: RunOpts{TrackAllocs: true}, Match: `/post/no_allocation`})
+		},
 		Trusted: append(append([]string{}, trustedCommon...),
 			"T9 cost model of the ghost allocation counter: make/new/composite literals that the compiler's escape analysis (go build -gcflags=-m, re-run on the scratch copy every time) reports as heap allocations, append beyond capacity, boxing of non-pointer values; runtime-internal allocations and a cold sync.Pool are outside the model",
 			"T6 the []byte header is reinterpreted as a string header without copying"),
